@@ -924,3 +924,174 @@ pub mod c16omit {
         map
     }
 }
+
+// C01 R9-R12 controls: a miniature compiler / VM
+pub mod c01b {
+    #[derive(Clone, PartialEq)]
+    pub struct JsValue(pub f64);
+    pub enum Op { StrictEq { dst: u8, l: u8, r: u8 }, GetVar { dst: u8, name: u16 }, Nop }
+    pub struct Placeholder(pub usize);
+    pub struct Builder { pub code: Vec<Op> }
+    impl Builder {
+        pub fn emit(&mut self, op: Op) -> usize { self.code.push(op); self.code.len() - 1 }
+        pub fn emit_jump(&mut self) -> Placeholder { Placeholder(self.emit(Op::Nop)) }
+        pub fn emit_jump_if_true(&mut self, _r: u8) -> Placeholder { Placeholder(self.emit(Op::Nop)) }
+        pub fn emit_jump_to(&mut self, _t: usize) { self.emit(Op::Nop); }
+        pub fn patch_jump(&mut self, _p: Placeholder) {}
+    }
+    pub struct Compiler { pub builder: Builder, pub redirects: Vec<(u16, u8)> }
+    impl Compiler {
+        fn compile_statement_impl(&mut self, _s: &u32) {}
+        fn compile_expression(&mut self, _s: &u32) {}
+        fn set_loop_var_redirects(&mut self, v: Vec<(u16, u8)>) { self.redirects = v; }
+        /// BAD (R9): the default jump is emitted in place
+        pub fn bad_switch(&mut self, cases: &[Option<u8>]) -> Vec<Placeholder> {
+            let mut out = Vec::new();
+            for c in cases {
+                if let Some(t) = c {
+                    self.builder.emit(Op::StrictEq { dst: 0, l: 1, r: *t });
+                    out.push(self.builder.emit_jump_if_true(0));
+                } else {
+                    out.push(self.builder.emit_jump());
+                }
+            }
+            out
+        }
+        /// GOOD (R9): remembered, emitted after the tests
+        pub fn good_switch(&mut self, cases: &[Option<u8>]) -> Vec<Placeholder> {
+            let mut out = Vec::new();
+            let mut has_default = false;
+            for c in cases {
+                if let Some(t) = c {
+                    self.builder.emit(Op::StrictEq { dst: 0, l: 1, r: *t });
+                    out.push(self.builder.emit_jump_if_true(0));
+                } else {
+                    has_default = true;
+                }
+            }
+            if has_default { out.push(self.builder.emit_jump()); }
+            out
+        }
+        /// GOOD (R9): an unconditional jump the loop patches itself (skips over something inside one test)
+        pub fn good_switch_patched(&mut self, cases: &[Option<u8>]) -> Vec<Placeholder> {
+            let mut out = Vec::new();
+            for c in cases {
+                if let Some(t) = c {
+                    let skip = self.builder.emit_jump();
+                    self.builder.emit(Op::StrictEq { dst: 0, l: 1, r: *t });
+                    self.builder.patch_jump(skip);
+                    out.push(self.builder.emit_jump_if_true(0));
+                }
+            }
+            out
+        }
+        /// BAD (R10): registers refreshed only when there is no update
+        pub fn bad_for(&mut self, regs: &[(u16, u8)], body: &u32, update: Option<&u32>) {
+            let start = self.builder.code.len();
+            self.compile_statement_impl(body);
+            if let Some(u) = update {
+                self.set_loop_var_redirects(regs.to_vec());
+                self.compile_expression(u);
+            } else {
+                for (n, r) in regs { self.builder.emit(Op::GetVar { dst: *r, name: *n }); }
+            }
+            self.builder.emit_jump_to(start);
+        }
+        /// GOOD (R10)
+        pub fn good_for(&mut self, regs: &[(u16, u8)], body: &u32, update: Option<&u32>) {
+            let start = self.builder.code.len();
+            self.compile_statement_impl(body);
+            for (n, r) in regs { self.builder.emit(Op::GetVar { dst: *r, name: *n }); }
+            if let Some(u) = update {
+                self.set_loop_var_redirects(regs.to_vec());
+                self.compile_expression(u);
+            }
+            self.builder.emit_jump_to(start);
+        }
+    }
+    pub struct Vm { pub regs: Vec<JsValue> }
+    impl Vm {
+        pub fn get_reg(&self, r: u8) -> JsValue { self.regs.get(r as usize).cloned().unwrap_or(JsValue(0.0)) }
+        pub fn set_reg(&mut self, r: u8, v: JsValue) { if let Some(s) = self.regs.get_mut(r as usize) { *s = v; } }
+        /// BAD (R11): the iterator is guessed to live three registers below the destination
+        pub fn bad_rest(&mut self, dst: u8) { let it = self.get_reg(dst.saturating_sub(3)); self.set_reg(dst, it); }
+        /// GOOD (R11): operand plus offset
+        pub fn good_window(&mut self, dst: u8, start: u8, count: u8) {
+            let mut acc = 0.0;
+            for i in 0..count { acc += self.get_reg(start + i).0; }
+            self.set_reg(dst, JsValue(acc));
+        }
+    }
+    /// BAD (R12)
+    pub fn bad_sort(v: &mut Vec<JsValue>) { v.sort_unstable_by(|a, b| a.0.total_cmp(&b.0)); }
+    /// GOOD (R12)
+    pub fn good_sort(v: &mut Vec<JsValue>) { v.sort_by(|a, b| a.0.total_cmp(&b.0)); }
+    /// GOOD (R12): integers have no identity
+    pub fn index_sort(v: &mut Vec<u32>) { v.sort_unstable(); }
+}
+
+// C01 R13 / R14 controls: byte and character quantities in string natives
+pub mod c01units {
+    pub enum JsValue { Number(f64), Undefined }
+    impl JsValue { pub fn to_number(&self) -> f64 { match self { JsValue::Number(n) => *n, _ => f64::NAN } } }
+    pub fn byte_offset(s: &str, pos: usize) -> usize { s.char_indices().nth(pos).map(|(b, _)| b).unwrap_or(s.len()) }
+    pub fn char_position(s: &str, byte: usize) -> usize { s.get(..byte).map(|h| h.chars().count()).unwrap_or(0) }
+    /// BAD: the script's position is used as a byte offset, and compared with a byte length
+    pub fn bad_index_of(s: &str, search: &str, args: &[JsValue]) -> JsValue {
+        let from = args.first().map(|v| v.to_number() as usize).unwrap_or(0);
+        if from >= s.len() { return JsValue::Number(-1.0); }
+        match s.get(from..).and_then(|t| t.find(search)) {
+            Some(p) => JsValue::Number(char_position(s, byte_offset(s, from) + p) as f64),
+            None => JsValue::Number(-1.0),
+        }
+    }
+    /// GOOD
+    pub fn good_index_of(s: &str, search: &str, args: &[JsValue]) -> JsValue {
+        let from = args.first().map(|v| v.to_number() as usize).unwrap_or(0);
+        if from >= s.chars().count() { return JsValue::Number(-1.0); }
+        let start = byte_offset(s, from);
+        match s.get(start..).and_then(|t| t.find(search)) {
+            Some(p) => JsValue::Number(char_position(s, start + p) as f64),
+            None => JsValue::Number(-1.0),
+        }
+    }
+    /// BAD: a byte offset becomes a script number
+    pub fn bad_search(s: &str, search: &str) -> JsValue {
+        match s.find(search) { Some(p) => JsValue::Number(p as f64), None => JsValue::Number(-1.0) }
+    }
+    /// BAD: byte length plus script index, then used as a character position
+    pub fn bad_at(s: &str, args: &[JsValue]) -> Option<char> {
+        let len = s.len() as isize;
+        let i = args.first().map(|v| v.to_number() as isize).unwrap_or(0);
+        let at = if i < 0 { len + i } else { i };
+        s.chars().nth(at as usize)
+    }
+    /// GOOD
+    pub fn good_at(s: &str, args: &[JsValue]) -> Option<char> {
+        let len = s.chars().count() as isize;
+        let i = args.first().map(|v| v.to_number() as isize).unwrap_or(0);
+        let at = if i < 0 { len + i } else { i };
+        s.chars().nth(at as usize)
+    }
+    /// BAD: the converter that expects bytes is handed the script's position
+    pub fn bad_swapped_converter(s: &str, args: &[JsValue]) -> usize {
+        let from = args.first().map(|v| v.to_number() as usize).unwrap_or(0);
+        char_position(s, from)
+    }
+    pub struct Re;
+    impl Re { pub fn is_match(&self, _s: &str) -> bool { true } }
+    pub struct Obj { pub props: Vec<(String, f64)> }
+    impl Obj {
+        pub fn get(&self, k: &str) -> f64 { self.props.iter().find(|p| p.0 == k).map(|p| p.1).unwrap_or(0.0) }
+        pub fn set(&mut self, k: &str, v: f64) { self.props.push((k.to_string(), v)); }
+    }
+    /// BAD (R14): runs the matcher, never looks at lastIndex
+    pub fn bad_test(re: &Re, _o: &mut Obj, s: &str) -> bool { re.is_match(s) }
+    /// GOOD (R14)
+    pub fn good_exec(re: &Re, o: &mut Obj, s: &str) -> bool {
+        let from = o.get("lastIndex") as usize;
+        let m = re.is_match(s.get(byte_offset(s, from)..).unwrap_or(""));
+        o.set("lastIndex", if m { (from + 1) as f64 } else { 0.0 });
+        m
+    }
+}
